@@ -16,7 +16,8 @@ func zzNameGX(id string) string {
 // ordered after that constant, whatever local declarations shadow the name elsewhere in the
 // function (WGSL scoping: a local is not in scope in its own initialiser and goes out of scope
 // at the end of its block). fn f() { <stmt1>; return U2; }  const g = 1;
-//   stmt1: let L = U1 | var L = U1 | { let L = 1; }      names L, U1, U2 in {g, x} symbolic.
+//
+//	stmt1: let L = U1 | var L = U1 | { let L = 1; }      names L, U1, U2 in {g, x} symbolic.
 func ZZ_C08_dependency_order_forward_reference() {
 	shape := zz.Choice("stmt1", 3)
 	L, U1, U2 := zzNameGX("L"), zzNameGX("U1"), zzNameGX("U2")
